@@ -54,7 +54,7 @@ func (m *Model) Fingerprint(fn *ssa.Function) string {
 					kind = "inv:" + c.Method.Name()
 				} else if b, ok := c.Value.(*ssa.Builtin); ok {
 					kind = "bi:" + b.Name()
-				} else if cal := c.StaticCallee(); cal != nil {
+				} else if cal := Unthunk(c.StaticCallee()); cal != nil {
 					switch {
 					case cal.Pkg == nil:
 						kind = "syn"
@@ -89,7 +89,7 @@ func (m *Model) Fingerprint2(fn *ssa.Function) string {
 	for _, b := range fn.Blocks {
 		for _, in := range b.Instrs {
 			if ci, ok := in.(ssa.CallInstruction); ok {
-				if cal := ci.Common().StaticCallee(); cal != nil && (cal.Pkg == m.SDec || cal.Pkg == m.SCtx) {
+				if cal := Unthunk(ci.Common().StaticCallee()); cal != nil && (cal.Pkg == m.SDec || cal.Pkg == m.SCtx) {
 					names = append(names, m.rawName(cal))
 				}
 			}
@@ -207,14 +207,49 @@ func (m *Model) ConstTableLookup(g *ssa.Global, idx []int64) (constant.Value, bo
 		return nil, false
 	}
 	cur := lit
+	var zeroStruct *types.Struct
 	for _, want := range idx {
+		if cur == nil && zeroStruct != nil {
+			// a field of an entry the literal leaves out
+			if want < 0 || int(want) >= zeroStruct.NumFields() {
+				return nil, false
+			}
+			if b, ok := zeroStruct.Field(int(want)).Type().Underlying().(*types.Basic); ok && b.Info()&types.IsBoolean != 0 {
+				return constant.MakeBool(false), true
+			}
+			return constant.MakeInt64(0), true
+		}
 		cl, ok := cur.(*ast.CompositeLit)
 		if !ok {
 			return nil, false
 		}
 		var found ast.Expr
 		pos := int64(0)
+		var st *types.Struct
+		if tv, ok := info.Types[cl]; ok && tv.Type != nil {
+			st, _ = tv.Type.Underlying().(*types.Struct)
+		}
 		for _, el := range cl.Elts {
+			if kv, ok := el.(*ast.KeyValueExpr); ok && st != nil {
+				// a struct literal with field names: the index is the field's
+				id, ok := kv.Key.(*ast.Ident)
+				if !ok {
+					return nil, false
+				}
+				fi := -1
+				for i := 0; i < st.NumFields(); i++ {
+					if st.Field(i).Name() == id.Name {
+						fi = i
+					}
+				}
+				if fi < 0 {
+					return nil, false
+				}
+				if int64(fi) == want {
+					found = kv.Value
+				}
+				continue
+			}
 			if kv, ok := el.(*ast.KeyValueExpr); ok {
 				tv, ok := info.Types[kv.Key]
 				if !ok || tv.Value == nil {
@@ -233,9 +268,36 @@ func (m *Model) ConstTableLookup(g *ssa.Global, idx []int64) (constant.Value, bo
 			pos++
 		}
 		if found == nil {
-			return constant.MakeInt64(0), true // left out: zero value
+			// left out: the zero value (false for a bool entry)
+			if tv, ok := info.Types[cl]; ok && tv.Type != nil {
+				var et types.Type
+				switch u := tv.Type.Underlying().(type) {
+				case *types.Array:
+					et = u.Elem()
+				case *types.Slice:
+					et = u.Elem()
+				case *types.Struct:
+					if want >= 0 && int(want) < u.NumFields() {
+						et = u.Field(int(want)).Type()
+					}
+				}
+				if et != nil {
+					if b, ok := et.Underlying().(*types.Basic); ok && b.Info()&types.IsBoolean != 0 {
+						return constant.MakeBool(false), true
+					}
+					if _, isStruct := et.Underlying().(*types.Struct); isStruct {
+						zeroStruct = et.Underlying().(*types.Struct)
+						cur = nil
+						continue
+					}
+				}
+			}
+			return constant.MakeInt64(0), true
 		}
 		cur = found
+	}
+	if cur == nil {
+		return nil, false
 	}
 	tv, ok := info.Types[cur]
 	if !ok || tv.Value == nil {
